@@ -325,6 +325,11 @@ class TranslatorC(Translator):
                 args = [self.from_expr(arg)
                         for arg in expr.args]
                 if expr.size <= self.NATIVE_INT_MAX_SIZE:
+                    if expr.op == "*" and expr.size < 32:
+                        # uint8_t / uint16_t operands are promoted to int: the
+                        # product of two 16 bit values may overflow it
+                        # (undefined behaviour)
+                        args = ["(uint32_t)(%s)" % arg for arg in args]
                     out = (" %s " % expr.op).join(args)
                     out = "((%s)&%s)" % (out, self._size2mask(expr.size))
                 else:
@@ -550,6 +555,9 @@ class TranslatorC(Translator):
                 self._size2mask(arg.size),
             )
                     for arg in expr.args]
+            if expr.op == "*" and expr.size < 32:
+                # See the two operands case: avoid the promotion to int
+                oper = ["(uint32_t)%s" % arg for arg in oper]
             oper = str(expr.op).join(oper)
             return "((%s)&%s)" % (
                 oper,
